@@ -41,6 +41,11 @@ RULE = (
     "sequence, incl. byte-identical notifications from two different sources); invalid datagrams are "
     "never delivered; later valid ones still are. A missing delivery is replayed once before "
     "it becomes a verdict. Distinct by (sequence of datagram classes, payload kinds)."
+    " Particular source ports (65535, 65534, 1, 161, 162, 1023, 1024, 32768, 49152) at random"
+    " and in one fixed sequence; twenty foreign communities (other case, padding, NUL, octets"
+    " outside ASCII) each in front of a valid notification; six callback shapes in rotation ("
+    "async function, lambda returning the coroutine, object with async __call__, bound method"
+    ", partials)."
 )
 ASSUMPTIONS = [
     "garbage is generated without the octet 0x80 (the indefinite-length spin of the external BER library belongs to C20 and would hang the listener)",
